@@ -25,16 +25,16 @@ func specCountT(args []string, i int) int {
 //@ func parseOptions
 //@   flag modular: true
 //@   ensures[C19] complete-or-no-return: len(result.in) > 0 && len(result.out) > 0 && len(result.converters) > 0
-//@   loop 2 invariant[C14,C19] one-factory-call-per-requested-target: calls(dyncall) == len(options.converters)
-//@   loop 2 invariant[C19] switches-at-odd-positions-all-known: i >= 1 && i % 2 == 1 && forall(j, 1, i, j % 2 == 1 ==> specIsSwitch(args[j]))
-//@   loop 2 invariant[C19] one-converter-per-type-switch: len(options.converters) == specCountT(args, i)
+//@   loop @"for i < (len(args) - 1)" invariant[C14,C19] one-factory-call-per-requested-target: calls(dyncall) == len(options.converters)
+//@   loop @"for i < (len(args) - 1)" invariant[C19] switches-at-odd-positions-all-known: i >= 1 && i % 2 == 1 && forall(j, 1, i, j % 2 == 1 ==> specIsSwitch(args[j]))
+//@   loop @"for i < (len(args) - 1)" invariant[C19] one-converter-per-type-switch: len(options.converters) == specCountT(args, i)
 //@   ensures[C14,C19] every-requested-target-gets-its-own-converter: calls(dyncall) == len(result.converters)
 //
 //@ func main
-//@   loop 1 invariant[C19] one-transpile-one-write-per-target: calls(Transpile) == rangeindex + 1 && calls(os_WriteFile) == rangeindex + 1 && calls(path_filepath_Join) == rangeindex + 1 && calls(path_filepath_Base) == rangeindex + 1 && calls(path_filepath_Ext) == rangeindex + 1 && calls(Extension) == rangeindex + 1 && calls(parseOptions) == 1
-//@   loop 1 invariant[C19] nothing-written-for-a-failed-target: forall(k, 0, rangeindex + 1, res(Transpile, k, 1) == nil && seq(Transpile, k) < seq(os_WriteFile, k) && res(os_WriteFile, k, 0) == nil)
-//@   loop 1 invariant[C19] bytes-are-the-library-result: forall(k, 0, rangeindex + 1, arg(os_WriteFile, k, 1) == bytesOf(res(Transpile, k, 0)) && arg(Transpile, k, 1) == res(parseOptions, 0, 0).in)
-//@   loop 1 invariant[C19] file-name-is-input-without-last-extension-plus-target-extension: forall(k, 0, rangeindex + 1, arg(os_WriteFile, k, 0) == res(path_filepath_Join, k, 0) && len(arg(path_filepath_Join, k, 0)) == 2 && arg(path_filepath_Join, k, 0)[0] == res(parseOptions, 0, 0).out && arg(path_filepath_Base, k, 0) == res(parseOptions, 0, 0).in && arg(path_filepath_Ext, k, 0) == res(parseOptions, 0, 0).in && arg(path_filepath_Join, k, 0)[1] == res(path_filepath_Base, k, 0)[0:len(res(path_filepath_Base, k, 0)) - len(res(path_filepath_Ext, k, 0))] + "." + res(Extension, k, 0))
+//@   loop @"range options.converters" invariant[C19] one-transpile-one-write-per-target: calls(Transpile) == rangeindex + 1 && calls(os_WriteFile) == rangeindex + 1 && calls(path_filepath_Join) == rangeindex + 1 && calls(path_filepath_Base) == rangeindex + 1 && calls(path_filepath_Ext) == rangeindex + 1 && calls(Extension) == rangeindex + 1 && calls(parseOptions) == 1
+//@   loop @"range options.converters" invariant[C19] nothing-written-for-a-failed-target: forall(k, 0, rangeindex + 1, res(Transpile, k, 1) == nil && seq(Transpile, k) < seq(os_WriteFile, k) && res(os_WriteFile, k, 0) == nil)
+//@   loop @"range options.converters" invariant[C19] bytes-are-the-library-result: forall(k, 0, rangeindex + 1, arg(os_WriteFile, k, 1) == bytesOf(res(Transpile, k, 0)) && arg(Transpile, k, 1) == res(parseOptions, 0, 0).in)
+//@   loop @"range options.converters" invariant[C19] file-name-is-input-without-last-extension-plus-target-extension: forall(k, 0, rangeindex + 1, arg(os_WriteFile, k, 0) == res(path_filepath_Join, k, 0) && len(arg(path_filepath_Join, k, 0)) == 2 && arg(path_filepath_Join, k, 0)[0] == res(parseOptions, 0, 0).out && arg(path_filepath_Base, k, 0) == res(parseOptions, 0, 0).in && arg(path_filepath_Ext, k, 0) == res(parseOptions, 0, 0).in && arg(path_filepath_Join, k, 0)[1] == res(path_filepath_Base, k, 0)[0:len(res(path_filepath_Base, k, 0)) - len(res(path_filepath_Ext, k, 0))] + "." + res(Extension, k, 0))
 //@   ensures[C19] one-file-per-requested-target: calls(os_WriteFile) == len(res(parseOptions, 0, 0).converters) && calls(Transpile) == len(res(parseOptions, 0, 0).converters)
 //@   ensures[C19] every-write-succeeded-and-follows-a-successful-transpile: forall(k, 0, calls(os_WriteFile), res(Transpile, k, 1) == nil && res(os_WriteFile, k, 0) == nil && seq(Transpile, k) < seq(os_WriteFile, k))
 //@   ensures[C19] bytes-and-name: forall(k, 0, calls(os_WriteFile), arg(os_WriteFile, k, 1) == bytesOf(res(Transpile, k, 0)) && arg(os_WriteFile, k, 0) == res(path_filepath_Join, k, 0) && arg(path_filepath_Join, k, 0)[1] == res(path_filepath_Base, k, 0)[0:len(res(path_filepath_Base, k, 0)) - len(res(path_filepath_Ext, k, 0))] + "." + res(Extension, k, 0))
